@@ -13,6 +13,8 @@ export const SIGMA = [
 ];
 export const POSITIONS = ['only', 'beforeExpr', 'afterExpr', 'betweenExpr', 'betweenEl'];
 const HOSTS = ['b', 'fragShort', 'Fragment', 'KeepAlive', 'custom', 'customUpper', 'customUnderscore', 'nsFragment', 'nsKeepAlive'];
+// hosts that declare KeepAlive themselves: one per module (child sequences only)
+const SOLO_HOSTS = ['keepAliveLateImport', 'keepAliveDestructured'];
 const CONTENT_HOSTS = ['divHtml', 'divInnerHTML', 'pText', 'divVSlots', 'keepAliveVSlots'];
 
 function* strings(maxLen) {
@@ -41,6 +43,9 @@ function hostTag(b, host) {
     // the built-ins reached through a namespace import of vue take children, not slots, like their plain names
     case 'nsFragment': b.importNs('vue', 'Vue'); return { kind: 'member', src: 'Vue.Fragment', i: b.leaf('Vue.Fragment'), fragLike: true };
     case 'nsKeepAlive': b.importNs('vue', 'Vue'); return { kind: 'member', src: 'Vue.KeepAlive', i: b.leaf('Vue.KeepAlive'), fragLike: true };
+    // KeepAlive is recognised by its name, wherever the binding comes from and wherever the import is written
+    case 'keepAliveLateImport': b.post.push('import { KeepAlive } from "vue";'); return { kind: 'KeepAlive', src: 'KeepAlive', i: b.leaf('KeepAlive') };
+    case 'keepAliveDestructured': b.importNs('vue', 'Vue'); b.pre.push('const { KeepAlive } = Vue;'); return { kind: 'KeepAlive', src: 'KeepAlive', i: b.leaf('KeepAlive') };
     case 'divHtml': case 'divInnerHTML': return { kind: 'html', name: 'div', src: 'div' };
     case 'pText': return { kind: 'html', name: 'p', src: 'p' };
     case 'divVSlots': return { kind: 'html', name: 'div', src: 'div' };
@@ -88,11 +93,13 @@ function* textModules(items, prefix, hostOf) {
   }
 }
 
-const CHILD_KINDS = ['text', 'textWs', 'textMulti', 'expr', 'exprStr', 'empty', 'comment', 'spread', 'spreadEmpty', 'el', 'frag', 'elWithKids', 'litNull', 'litBool', 'litNum', 'litStr', 'undef', 'tplStatic', 'spreadSet'];
+const CHILD_KINDS = ['text', 'textWs', 'textMulti', 'expr', 'exprStr', 'empty', 'comment', 'spread', 'spreadEmpty', 'el', 'frag', 'elWithKids', 'litNull', 'litBool', 'litNum', 'litStr', 'undef', 'tplStatic', 'spreadSet', 'textSpace'];
 function makeChild(b, rng, kind, st) {
   switch (kind) {
     case 'text': return C.text(`w${st.n++}`);
     case 'textWs': return C.text(rng.pick(['\n    ', '\n', '\n\t\n  ']));
+    // an inline blank (or no-break space) between siblings is content
+    case 'textSpace': return rng.bool(0.7) ? C.text(' ') : C.text('\u00a0');
     case 'textMulti': return C.text(`\n    line${st.n++}\n    more  \n  `);
     case 'expr': { const g = b.global({ k: 'sent' }); return C.expr(b.leaf(g), g); }
     case 'exprStr': { const f = b.fnGlobal({ k: 'str', v: `r${st.n++}` }); return C.expr(b.leaf(`${f}()`), `${f}()`); }
@@ -171,12 +178,13 @@ export function* generate({ tier, seed }) {
     return {
       gid: `C02-child-${n++}`, src: b.source(), syntax: 'jsx',
       spec: { thunks: [{ name: 't0', el, feature: `child|${host}|${kinds.join(',')}` }], env: b.env },
-      feature: 'child', variants: [{ vid: 'v0', options: OPTS }],
+      // (short sequences also without object slots: a lone call child of a host that takes no slots stays an array element)
+      feature: 'child', variants: kinds.length <= 2 ? [{ vid: 'v0', options: OPTS }, { vid: 'v1', options: { ...OPTS, enableObjectSlots: false, optimize: true } }] : [{ vid: 'v0', options: OPTS }],
     };
   };
   const exLen = tier === 'quick' ? 3 : 4;
-  for (const host of [...HOSTS, ...CONTENT_HOSTS]) for (const seq of childSeqs(CHILD_KINDS, exLen)) {
-    if (CONTENT_HOSTS.includes(host) && seq.length > 2) continue;
+  for (const host of [...HOSTS, ...CONTENT_HOSTS, ...SOLO_HOSTS]) for (const seq of childSeqs(CHILD_KINDS, exLen)) {
+    if ((CONTENT_HOSTS.includes(host) || SOLO_HOSTS.includes(host)) && seq.length > 2) continue;
     if (tier === 'quick' && host !== 'b' && seq.length === 3 && rng.bool(0.7)) continue;
     yield emitChildCase(host, seq);
   }
@@ -185,7 +193,7 @@ export function* generate({ tier, seed }) {
     const len = 3 + rng.int(6);
     const kinds = [];
     for (let j = 0; j < len; j++) kinds.push(rng.pick(CHILD_KINDS));
-    yield emitChildCase(rng.bool(0.1) ? rng.pick(CONTENT_HOSTS) : rng.pick(HOSTS), kinds);
+    yield emitChildCase(rng.bool(0.1) ? rng.pick([...CONTENT_HOSTS, ...SOLO_HOSTS]) : rng.pick(HOSTS), kinds);
   }
 }
 
@@ -212,9 +220,8 @@ function textFailureClass(th, d) {
   return single ? 'text/ascii-edge-space-single-line' : 'text/ascii-multi-line';
 }
 
-export async function check(group, records) {
+async function checkVariant(group, records, v) {
   const out = [];
-  const v = group.variants[0];
   const rec = records[v.vid];
   const base = { gid: group.gid, vid: v.vid };
   if (!rec || rec.status !== 'ok') return [inconclusive({ ...base, reason: `transform status ${rec && rec.status}` })];
@@ -225,7 +232,7 @@ export async function check(group, records) {
   const live = (r) => {
     group.spec.thunks.forEach((th, k) => {
       const e = r.thunks[k];
-      const b2 = { ...base, feature: th.feature, nontrivial: true, thunk: th.name };
+      const b2 = { ...base, feature: v.vid === 'v0' ? th.feature : `${th.feature}|${v.vid}`, nontrivial: true, thunk: th.name };
       if (e.B.error) { out.push(inconclusive({ ...b2, reason: 'reference failed: ' + short(e.B.error) })); return; }
       if (e.A.error) { out.push(violated({ ...b2, oracle: 'thunk-evaluates', sig: `C02/runtime-error/${e.A.error.name}`, detail: e.A.error })); return; }
       const a = pickVNode(e.A.canon, ['children']);
@@ -255,6 +262,12 @@ export async function check(group, records) {
     return [harness ? inconclusive({ ...base, reason: short(r.error) })
       : violated({ ...base, oracle: 'module-evaluates', sig: `C02/module-error/${r.error.phase}/${r.error.name}`, detail: r.error })];
   }
+  return out;
+}
+
+export async function check(group, records) {
+  const out = [];
+  for (const v of group.variants) out.push(...await checkVariant(group, records, v));
   return out;
 }
 
